@@ -688,6 +688,40 @@ static void ptr_event(const char* pos, W rep, const void* got, const char* outc)
   g_ptr_runs[pos].add(pos, rep, outc, cls, sbn, off, addr);
 }
 
+// Pointer cells compared with each other: each cell is translated relative to the sandbox whose
+// memory it lives in, so two cells are equal iff they designate the same object - equal
+// representations in two different sandboxes are different pointers.
+static void cellcmp_tests()
+{
+  auto pa = sb->malloc_in_sandbox<int*>();
+  auto pb = sb->malloc_in_sandbox<int*>();
+  auto qo = others[0]->malloc_in_sandbox<int*>();
+  const uintptr_t obase = others[0]->get_sandbox_impl()->base;
+  struct Case { const char* what; long offl; const char* sbr; long offr; };
+  for (Case c : { Case{ "same sandbox, same offset", 16, "s0", 16 }, Case{ "same sandbox, other offset", 16, "s0", 2048 },
+                  Case{ "two sandboxes, same offset", 16, "s1", 16 }, Case{ "two sandboxes, same offset", 2048, "s1", 2048 },
+                  Case{ "two sandboxes, other offset", 16, "s1", 2048 } }) {
+    bool other = std::string(c.sbr) == "s1";
+    bool eq = false, ne = false;
+    const char* r = guarded([&] {
+      *pa = sb->UNSAFE_accept_pointer(reinterpret_cast<int*>(BASE + c.offl));
+      if (other) {
+        *qo = others[0]->UNSAFE_accept_pointer(reinterpret_cast<int*>(obase + c.offr));
+        eq = (*pa == *qo).unverified_safe_because("observed");
+        ne = (*pa != *qo).unverified_safe_because("observed");
+      } else {
+        *pb = sb->UNSAFE_accept_pointer(reinterpret_cast<int*>(BASE + c.offr));
+        eq = (*pa == *pb).unverified_safe_because("observed");
+        ne = (*pa != *pb).unverified_safe_because("observed");
+      }
+    });
+    tr::Ev e("cellcmp");
+    e.str("what", c.what).str("sbl", "s0").num("offl", c.offl).str("sbr", c.sbr).num("offr", c.offr);
+    e.str("out", r).boolean("eq", eq).boolean("ne", ne);
+    out.put(e);
+  }
+}
+
 static void ptr_tests(std::mt19937_64& rng, bool thorough)
 {
   std::vector<W> reps;
@@ -1495,6 +1529,7 @@ int main(int argc, char** argv)
       LD(unsigned long) LD(long long) LD(unsigned long long) LD(float) LD(double) LD(char16_t) LD(char32_t) LD(testEnum)
   } else if (mode == "ptr") {
     ptr_tests(rng, thorough);
+    cellcmp_tests();
   } else if (mode == "chain") {
     chain_tests(thorough);
   } else if (mode == "entry") {
